@@ -64,7 +64,7 @@ MODES = ["full", "theta_only", "x_only", "weights_only", "first_layer_frozen"]
 
 def gen_cases(seed, tier):
     rng = np.random.default_rng([seed, 9])
-    n_twin, n_forms = (300, 260) if tier == "quick" else (6000, 5000)
+    n_twin, n_forms = (300, 260) if tier == "quick" else (15000, 12000)
     cases = []
     for i in range(n_twin + n_forms):
         kind = "twin" if i < n_twin else "forms"
